@@ -25,7 +25,7 @@ ASSUMPTIONS = [
     "in the parallel path one parameter combination (the first of the sorted space) is executed one extra time (shape discovery); that duplicate execution is allowed, per DESIGN.md C05",
 ]
 COMPONENTS = {"real": ["pyxel pipeline/processor/configuration", "dask get_async", "PyYAML"], "stub": ["thread pool"]}
-BUDGET = {"quick": {"n": 480, "wall": 100, "determinism": 4}, "thorough": {"n": 12000, "wall": 1500, "determinism": 12}}
+BUDGET = {"quick": {"n": 480, "wall": 100, "determinism": 4}, "thorough": {"n": 24000, "wall": 1500, "determinism": 12}}
 REQUIRED_REACH = ["variant:calibration", "calibration_evaluations", "reconfigured_rerun", "warmup_then_observation", "variant:exposure", "variant:obs-seq", "variant:obs-par", "fault_prefix_checked", "yaml_twin", "debug_runs", "all_ten_groups"]
 
 
